@@ -387,6 +387,72 @@ func init() {
 			e.Unknown("onStopStream")
 		}
 		emitList(e, "stopStreamCalls", "service.onStopStream: tracked calls", sc)
+		// onGetStreamInfo: the stream found by Get reports itself
+		var gi []string
+		if b := body(af, "Service", "onGetStreamInfo"); b != nil {
+			gi = calls(b, func(n string) bool { return n == "media.Get" || strings.HasSuffix(n, ".Info") })
+		} else {
+			e.Unknown("onGetStreamInfo")
+		}
+		emitList(e, "getStreamInfoCalls", "service.onGetStreamInfo: tracked calls", gi)
+		// Stream.Info: the path and the consumer count it reports
+		var sif []string
+		if b := body(sf, "Stream", "Info"); b != nil {
+			ast.Inspect(b, func(x ast.Node) bool {
+				if cl, ok := x.(*ast.CompositeLit); ok && Src(cl.Type) == "StreamInfo" {
+					for _, el := range cl.Elts {
+						if kv, ok := el.(*ast.KeyValueExpr); ok && (Src(kv.Key) == "Path" || Src(kv.Key) == "ConsumptionCount") {
+							sif = append(sif, Src(kv.Key)+"="+Src(kv.Value))
+						}
+					}
+				}
+				return true
+			})
+		}
+		if len(sif) != 2 {
+			e.Unknown("streamInfoFields")
+		}
+		emitList(e, "streamInfoFields", "Stream.Info: the Path and ConsumptionCount fields of the StreamInfo literal", sif)
+		// Infos: sorted by path, cut to the page size
+		var isort, iret []string
+		if b := body(g, "", "Infos"); b != nil {
+			ast.Inspect(b, func(x ast.Node) bool {
+				switch v := x.(type) {
+				case *ast.CallExpr:
+					if Src(v.Fun) == "sort.Slice" && len(v.Args) == 2 {
+						isort = append(isort, "sort.Slice")
+						if fl, ok := v.Args[1].(*ast.FuncLit); ok && len(fl.Body.List) == 1 {
+							if r, ok := fl.Body.List[0].(*ast.ReturnStmt); ok && len(r.Results) == 1 {
+								isort = append(isort, Src(r.Results[0]))
+							}
+						}
+					}
+				case *ast.ReturnStmt:
+					if len(v.Results) == 2 {
+						iret = append(iret, Src(v.Results[0])+", "+Src(v.Results[1]))
+					}
+				}
+				return true
+			})
+		} else {
+			e.Unknown("Infos")
+		}
+		// (the return inside the sort.Slice literal has one result and is not collected; Range callbacks return one value)
+		emitList(e, "infosSort", "media.Infos: the sort call and its less expression", isort)
+		emitList(e, "infosReturns", "media.Infos: the two-valued return statements", iret)
+		// UnregistAll (shutdown): every entry is deleted and its stream closed
+		var ua []string
+		if b := body(g, "", "UnregistAll"); b != nil {
+			ua = calls(b, oneOf("Range", "Delete", "Close"))
+			for i, c := range ua { // the Range argument is the whole callback: keep the callee only
+				if strings.HasPrefix(c, "streams.Range(") {
+					ua[i] = "streams.Range"
+				}
+			}
+		} else {
+			e.Unknown("UnregistAll")
+		}
+		emitList(e, "unregistAllCalls", "media.UnregistAll: tracked calls", ua)
 	})
 }
 
